@@ -1,18 +1,28 @@
 import ShpanVerif.Util.Parse
 import ShpanVerif.Model.Derive
 import ShpanVerif.Model.RowAlias
+import ShpanVerif.Model.MetaMap
 /-
 Driver handler for C17 (case formats: see harness/run/c17.go).
 
   D r<root> <derivations> | <order> ; <order> ...
       model : `Derive.runD` over the slice heap (growth oracle: Go-like doubling), then read every stream value's
               lifecycle slice from the final heap
+              (kind C = concurrent map: `Derive.concMapLifecycle`, guard ids >= `guardBase` are not probes)
       spec  : every stream opens/closes exactly the ids of its own derivation path (computed by following the
-              parent pointers, no heap) and delivers its path's elements
+              parent pointers, no heap) and delivers its path's elements (sorted below a concurrent map, counted
+              below a Limit/Skip under a concurrent map)
 
   Q <lay> n= w= caps=k:m,... <mode> | P | Q | post
       model : `RowAlias.stepR` operations on a heap built with the given spare capacities / layout
       spec  : a table-level evaluator (lists only), the same for every capacity, and the caller-data bit must be 1
+
+  M <seq|join> src=<cm>,<cm>,... | P | Q          (custom-metadata MAPS; planning time)
+      model : `MetaMap.stepM` operations on a heap of map objects holding the caller's maps (source fields',
+              AddFieldMeta's, constants') in textual order; every result field is printed with its contents and WHICH
+              object it is (`#c<i>` caller map i, `#f<j>` j-th fresh map in order of first appearance)
+      spec  : contents of every field = the value-level merge (`MetaMap.specRunM`: no heap, no references), P's result
+              printed before and after Q ran is the same, and the caller-maps bit must be 1
 -/
 namespace ShpanVerif.Drive.C17
 open ShpanVerif.Util ShpanVerif.Model.Slice ShpanVerif.Model.Derive ShpanVerif.Model.RowAlias
@@ -85,7 +95,8 @@ def fmtInts (l : List Int) : String := fmtList toString l
 
 /-- How the elements of stream `i` are compared: 0 = the exact sequence; 1 = as a sorted multiset (a concurrent map on
     the path: order unspecified, Filter/Map/Peek commute with any order); 2 = only their number (Limit/Skip below a
-    concurrent map: which elements pass depends on the schedule, how many does not). -/
+    concurrent map: which elements pass depends on the schedule, how many does not); 3 = not at all (a Filter below
+    that: even the number depends on the schedule). -/
 def dataMode (c : DCase) : Nat → Nat → Nat
   | 0, _ => 0
   | fuel + 1, i =>
@@ -95,14 +106,16 @@ def dataMode (c : DCase) : Nat → Nat → Nat
     | some (p, k) =>
       let m := dataMode c fuel p
       if k == 'C' then max m 1
-      else if (k == 'L' || k == 'S') && m ≥ 1 then 2
+      else if (k == 'L' || k == 'S') && m == 1 then 2
+      else if k == 'F' && m ≥ 2 then 3
       else m
 
 def fmtData (mode : Nat) (l : List Int) : String :=
   match mode with
   | 0 => fmtInts l
   | 1 => fmtInts (l.toArray.qsort (· < ·)).toList
-  | _ => s!"#{l.length}"
+  | 2 => s!"#{l.length}"
+  | _ => "?"
 
 def fmtD (c : DCase) (lc : Nat → List Nat) (data : Nat → List Int) : String :=
   let n := c.ds.length + 1
@@ -399,6 +412,229 @@ def handleQ (text obs : String) : String × Bool × String :=
       let kf := if c.mode == "joinshared" ++ "I" then "KF:F6 one datasource object materialised by both join sides (shared cursor); " else ""
       (model, false, kf ++ why)
 
+/-! ### M cases: custom-metadata maps -/
+
+section Maps
+open ShpanVerif.Model.MetaMap
+
+inductive AExpr
+  | ref (i : Nat)
+  | const (v : Int) (cm : CMV)
+  | num (a b : AExpr)
+
+structure AItem where
+  e : AExpr
+  cm : CMV
+
+structure AStage where
+  kind : Char
+  idx : Nat
+  items : List AItem
+
+def parseCMV (s : String) : Option CMV :=
+  if s == "-" then some none
+  else if s == "e" then some (some [])
+  else
+    ((s.splitOn "+").foldlM (fun (m : MapV) (kv : String) =>
+      match kv.splitOn ":" with
+      | [k, v] => do pure (mapInsert m (← k.toNat?) (← v.toInt?))
+      | _ => none) []).map some
+
+def isCMChar (c : Char) : Bool := c.isDigit || c == ':' || c == '+' || c == '-' || c == 'e'
+
+def parseExprC : Nat → List Char → Option (AExpr × List Char)
+  | 0, _ => none
+  | _ + 1, 'r' :: rest =>
+    let ds := rest.takeWhile Char.isDigit
+    (String.ofList ds).toNat?.map (fun n => (AExpr.ref n, rest.dropWhile Char.isDigit))
+  | _ + 1, 'c' :: rest =>
+    let ds := rest.takeWhile Char.isDigit
+    match rest.dropWhile Char.isDigit with
+    | '~' :: r2 => do
+      let v ← (String.ofList ds).toNat?
+      let cm ← parseCMV (String.ofList (r2.takeWhile isCMChar))
+      pure (AExpr.const (Int.ofNat v) cm, r2.dropWhile isCMChar)
+    | _ => none
+  | f + 1, 'x' :: '(' :: rest => do
+    let (a, r1) ← parseExprC f rest
+    match r1 with
+    | ',' :: r2 => do
+      let (b, r3) ← parseExprC f r2
+      match r3 with
+      | ')' :: r4 => pure (AExpr.num a b, r4)
+      | _ => none
+    | _ => none
+  | _, _ => none
+
+def parseItem (t : String) : Option AItem := do
+  let cs := t.toList
+  let (e, rest) ← parseExprC (cs.length + 1) cs
+  match rest with
+  | '@' :: cm => pure { e := e, cm := (← parseCMV (String.ofList cm)) }
+  | _ => none
+
+def parseMStage (t : String) : Option AStage :=
+  match t.toList with
+  | 'A' :: rest => (parseItem (String.ofList rest)).map (fun it => { kind := 'A', idx := 0, items := [it] })
+  | 'S' :: rest => ((String.ofList rest).splitOn ";").mapM parseItem |>.map (fun its => { kind := 'S', idx := 0, items := its })
+  | 'R' :: rest =>
+    let ds := rest.takeWhile Char.isDigit
+    match rest.dropWhile Char.isDigit with
+    | '=' :: r2 => do
+      let i ← (String.ofList ds).toNat?
+      let it ← parseItem (String.ofList r2)
+      pure { kind := 'R', idx := i, items := [it] }
+    | _ => none
+  | _ => none
+
+def parseMChain (s : String) : Option (List AStage) :=
+  let s := s.trimAscii.toString
+  if s == "-" then some [] else (s.splitOn ".").mapM parseMStage
+
+structure MCase where
+  mode : String
+  src : List CMV
+  p : List AStage
+  q : List AStage
+
+def parseM (text : String) : Option MCase :=
+  match text.splitOn " | " with
+  | [head, p, q] =>
+    match words head with
+    | [mode, src] => do
+      let src ← ((← stripPrefix? src "src=").splitOn ",").mapM parseCMV
+      pure { mode := mode, src := src, p := (← parseMChain p), q := (← parseMChain q) }
+    | _ => none
+  | _ => none
+
+/-- the caller makes one map object per non-nil literal, in textual order -/
+def allocCM (h : MHeap) : CMV → MHeap × MRef
+  | none => (h, none)
+  | some m => (h ++ [m], some h.length)
+
+def cExpr (h : MHeap) : AExpr → MHeap × MExpr
+  | .ref i => (h, .ref i)
+  | .const _ cm => let a := allocCM h cm; (a.1, .const a.2)
+  | .num a b =>
+    let ra := cExpr h a
+    let rb := cExpr ra.1 b
+    (rb.1, .num ra.2 rb.2)
+
+def cItems (h : MHeap) (its : List AItem) : MHeap × List (MExpr × MRef) :=
+  its.foldl (fun (acc : MHeap × List (MExpr × MRef)) it =>
+    let re := cExpr acc.1 it.e
+    let rc := allocCM re.1 it.cm
+    (rc.1, acc.2 ++ [(re.2, rc.2)])) (h, [])
+
+/-- a stage with its literals allocated, waiting for its source register -/
+def cStage (h : MHeap) (st : AStage) : MHeap × (Nat → MOp) :=
+  let r := cItems h st.items
+  match st.kind, r.2 with
+  | 'A', (e, cm) :: _ => (r.1, fun src => .appendField src e cm)
+  | 'R', (e, cm) :: _ => (r.1, fun src => .replaceField src st.idx e cm)
+  | _, items => (r.1, fun src => .selectFields src items)
+
+def cChain (h : MHeap) (ch : List AStage) : MHeap × List (Nat → MOp) :=
+  ch.foldl (fun (acc : MHeap × List (Nat → MOp)) st =>
+    let r := cStage acc.1 st
+    (r.1, acc.2 ++ [r.2])) (h, [])
+
+/-- operations of a chain reading register `src` when `next` registers exist; returns the result register -/
+def chainOps (stages : List (Nat → MOp)) (src next : Nat) : List MOp × Nat × Nat :=
+  stages.foldl (fun (acc : List MOp × Nat × Nat) st => (acc.1 ++ [st acc.2.1], acc.2.2, acc.2.2 + 1)) ([], src, next)
+
+def fmtMapV (m : MapV) : String := "{" ++ "+".intercalate (m.map (fun kv => s!"{kv.1}:{kv.2}")) ++ "}"
+
+def fmtCMV : CMV → String
+  | none => "n"
+  | some m => fmtMapV m
+
+/-- one field with its identity tag; `seen` = the fresh map objects printed so far -/
+def fmtTagged (nC : Nat) (h : MHeap) (seen : List Nat) (r : MRef) : String × List Nat :=
+  match r with
+  | none => ("n", seen)
+  | some i =>
+    let body := fmtMapV (ShpanVerif.Model.Slice.arrOf h i)
+    if i < nC then (s!"{body}#c{i}", seen)
+    else
+      match seen.idxOf? i with
+      | some j => (s!"{body}#f{j}", seen)
+      | none => (s!"{body}#f{seen.length}", seen ++ [i])
+
+def fmtFieldsTagged (nC : Nat) (h : MHeap) (seen : List Nat) (fs : List MRef) : String × List Nat :=
+  let r := fs.foldl (fun (acc : List String × List Nat) f =>
+    let x := fmtTagged nC h acc.2 f
+    (acc.1 ++ [x.1], x.2)) ([], seen)
+  (if r.1.isEmpty then "-" else ",".intercalate r.1, r.2)
+
+def fmtFieldsV (fs : List CMV) : String := if fs.isEmpty then "-" else ",".intercalate (fs.map fmtCMV)
+
+/-- drop the identity tags (`#c3`, `#f0`) of an observation: what is left are the contents -/
+def stripTags (s : String) : String :=
+  let r := s.toList.foldl (fun (acc : List Char × Bool) c =>
+    if acc.2 then (if c == ',' || c == ' ' then (c :: acc.1, false) else acc)
+    else if c == '#' then (acc.1, true) else (c :: acc.1, false)) ([], false)
+  String.ofList r.1.reverse
+
+def changedMaps (h0 h : MHeap) : String :=
+  let bad := (List.range h0.length).filter (fun i => h[i]? != h0[i]?)
+  if bad.isEmpty then "u=1" else "u=0:" ++ ",".intercalate (bad.map (fun i => s!"c{i}"))
+
+def handleM (text obs : String) : String × Bool × String :=
+  match parseM text with
+  | none => ("bad-case", false, "unparsable case")
+  | some c =>
+    -- the caller's maps, in textual order: source fields, chain P, chain Q
+    let srcAlloc := c.src.foldl (fun (acc : MHeap × List MRef) cm =>
+      let a := allocCM acc.1 cm
+      (a.1, acc.2 ++ [a.2])) (([] : MHeap), [])
+    let (h1, stP) := cChain srcAlloc.1 c.p
+    let (h0, stQ) := cChain h1 c.q
+    let nC := h0.length
+    let s0 : MState := { heap := h0, regs := [srcAlloc.2] }
+    let lit := deref h0
+    let (opsP, rP, n1) := chainOps stP 0 1
+    let (opsQ, rQ, n2) := chainOps stQ 0 n1
+    if c.mode == "seq" then
+      let (opsP2, rP2, _) := chainOps stP 0 n2
+      let s1 := runM s0 opsP
+      let s2 := runM s1 opsQ
+      let s3 := runM s2 opsP2
+      let (fP, seen1) := fmtFieldsTagged nC s1.heap [] (s1.reg rP)
+      let (fQ, seen2) := fmtFieldsTagged nC s2.heap seen1 (s2.reg rQ)
+      let (fP', seen3) := fmtFieldsTagged nC s2.heap seen2 (s2.reg rP)
+      let (fP2, _) := fmtFieldsTagged nC s3.heap seen3 (s3.reg rP2)
+      let model := s!"P={fP} Q={fQ} P'={fP'} P2={fP2} {changedMaps h0 s3.heap}"
+      let sv := specRunM lit s0.vals (opsP ++ opsQ ++ opsP2)
+      let vP := fmtFieldsV (sv.getD rP [])
+      let want := s!"P={vP} Q={fmtFieldsV (sv.getD rQ [])} P'={vP} P2={fmtFieldsV (sv.getD rP2 [])} u=1"
+      let got := stripTags obs
+      (model, got == want,
+        if got == want then ""
+        else (if (obs.splitOn "u=0").length > 1 then "a caller-supplied custom-metadata map was modified; " else "") ++
+          s!"custom metadata of the results is not the value-level merge; contents `{got}` want `{want}`")
+    else
+      let (opsJ, rJ, n3) := ([MOp.concat rP rQ], n2, n2 + 1)
+      let (opsP2, rP2, n4) := chainOps stP 0 n3
+      let (opsQ2, rQ2, n5) := chainOps stQ 0 n4
+      let (opsJ2, rJ2) := ([MOp.concat rP2 rQ2], n5)
+      let s1 := runM s0 (opsP ++ opsQ ++ opsJ)
+      let s2 := runM s1 (opsP2 ++ opsQ2 ++ opsJ2)
+      let (fJ, seen1) := fmtFieldsTagged nC s1.heap [] (s1.reg rJ)
+      let (fJ', seen2) := fmtFieldsTagged nC s2.heap seen1 (s2.reg rJ)
+      let (fJ2, _) := fmtFieldsTagged nC s2.heap seen2 (s2.reg rJ2)
+      let model := s!"J={fJ} J'={fJ'} J2={fJ2} {changedMaps h0 s2.heap}"
+      let sv := specRunM lit s0.vals (opsP ++ opsQ ++ opsJ ++ opsP2 ++ opsQ2 ++ opsJ2)
+      let vJ := fmtFieldsV (sv.getD rJ [])
+      let want := s!"J={vJ} J'={vJ} J2={fmtFieldsV (sv.getD rJ2 [])} u=1"
+      let got := stripTags obs
+      (model, got == want,
+        if got == want then ""
+        else (if (obs.splitOn "u=0").length > 1 then "a caller-supplied custom-metadata map was modified; " else "") ++
+          s!"custom metadata of the results is not the value-level merge; contents `{got}` want `{want}`")
+
+end Maps
+
 /-- returns (model output, spec verdict on the observation, reason) -/
 def handle (c obs : String) : String × Bool × String :=
   match stripPrefix? c "D " with
@@ -406,6 +642,9 @@ def handle (c obs : String) : String × Bool × String :=
   | none =>
     match stripPrefix? c "Q " with
     | some t => handleQ t obs
-    | none => ("bad-case", false, "unknown case kind")
+    | none =>
+      match stripPrefix? c "M " with
+      | some t => handleM t obs
+      | none => ("bad-case", false, "unknown case kind")
 
 end ShpanVerif.Drive.C17
